@@ -3,6 +3,12 @@
 EVS = ['e0', 'e1', 'e2', 'e3']
 METHS = ['m0', 'm1', 'm2']
 ARGS = ['_', '1', '0.N', 'sa.2', '1|k=2', '_|a=N.b=sx', '7.8.9', '1|event=2', '_|handler=N.name=sx']
+# payload keywords named like something a dispatcher might one day take for itself: they belong to the listeners
+ARGS = ARGS * 3 + [f'{a}|{n}={v}' for n, a, v in zip(
+    ['sender', 'source', 'target', 'priority', 'immediate', 'default', 'once', 'callback', 'args', 'kwargs', 'dt',
+     'world', 'entity', 'force', 'handler', 'enabled', 'queue', 'sync'],
+    ['_', '1', '_', '0.N', '_', '1', '_', 'sa.2', '_', '1', '_', '_', '1', '_', '_', '1', '_', '_'],
+    ['N', '2', 'sx', 'N', '1', 'N', '1', 'sx', '2', 'N', '1', 'N', 'sx', '1', '2', '0', 'N', '1'])]
 
 
 def gen_universe(rng, max_classes=5, max_objs=5, mixins=True, evs=None):
